@@ -39,6 +39,7 @@ def _replay(name, law):
             "inverse": "bad = not same(float(t.membership(z)), y, tol)",
             "mono_inc": "bad = y <= y2 and not (z <= z2 + tol * max(1.0, abs(z)))",
             "mono_dec": "bad = y <= y2 and not (z >= z2 - tol * max(1.0, abs(z)))",
+            "pyfloat": "bad = not same(float(t.tsukamoto(float(y))), float(t.tsukamoto(np.array(y))), 0.0)",
             "arrays": "ya = np.array([y, y2]); r = t.tsukamoto(ya); y0d = np.array(y); t.tsukamoto(y0d);"
                       " bad = not same(r, [z, z2], 0.0) or not same(ya, [y, y2]) or not same(y0d, y)\n"
                       "for A in (np.array([y]), np.array([[y]]), np.array([[y], [y2]]), np.array([[y, y2]])):\n"
@@ -154,6 +155,32 @@ def ob_f_finite(name):
             ob.r.sat = 0
             ob.query_timeout_ms = 45000 if ob.tier == "quick" else 1500000
             attempt(True)
+
+    return run
+
+
+def ob_pyfloat(name):
+    """parameters, height and degree given as plain Python floats: no exception that NumPy numbers would not raise, same value"""
+    def run(ob):
+        fl = install()
+        set_mode("R")
+        S.pyfloats = True
+        params, valid, mu, at_inf, mono = spec.TERMS[name]
+        P = sym_params(name)
+        h, y = rvar("h"), rvar("y")
+        Pv = {k: v.v for k, v in P.items()}
+        pre = [valid(Pv), y.v >= 0, y.v <= h.v] + hpre(h)
+        py = core.PyRFloat.of
+        tpy = mk(fl, name, {k: py(v) for k, v in P.items()}, py(h))
+        tnp = mk(fl, name, P, h)
+        ins = _inputs(P, h)
+        ins["y"] = y
+        label = f"{name}/python-floats"
+        for p in ob.paths(pre, lambda: (tpy.tsukamoto(py(y)), tnp.tsukamoto(y))):
+            if p.exc is not None:
+                ob.unexpected(pre, p, label, ins, _replay(name, "pyfloat"))
+                continue
+            ob.prove(pre, p, same(tf(p.result[0]), tf(p.result[1])), label, ins, _replay(name, "pyfloat"))
 
     return run
 
@@ -299,6 +326,7 @@ def _obligations(tier, seed):
         obs.append((f"{name}/R/inverse", ob_inverse(name)))
         obs.append((f"{name}/R/monotone", ob_mono(name)))
         obs.append((f"{name}/R/arrays", ob_arrays(name, tier)))
+        obs.append((f"{name}/R/python-floats", ob_pyfloat(name)))
         obs.append((f"{name}/R/reuse", ob_reuse(name)))
         obs.append((f"{name}/F/finite", ob_f_finite(name)))
     obs.append(("non-monotonic/refuse", ob_refuse))
